@@ -994,10 +994,19 @@ def differential(ctx: Ctx, mism, budget=16):
         small = None
         if i > 0:
             plan = eff(c).get("plan", [])
-            two = dict(control_of(c, i), times=[hx(1.0), hx(2.0)], plan=[plan[i - 1], plan[i]])
-            o2 = run_plain(ctx, [two])[0]
-            if "crash" not in o2 and "driver_error" not in o2 and differential_eval(ctx, [(two, o2, 1)], tag="dif2"):
-                small = (two, o2, 1)
+            got0, exp0 = o["obs"][i]["end"], co["obs"][0]["end"]
+            bks = {("charge" if k == "cframe" else k) for k in PIECES if got0.get(k) != exp0.get(k)}
+            only = [[w for w in st if w[0] in bks] for st in (plan[i - 1], plan[i])]
+            for pl in (only, [plan[i - 1], plan[i]]):
+                two = dict(control_of(c, i), times=[hx(1.0), hx(2.0)], plan=pl)
+                o2 = run_plain(ctx, [two])[0]
+                if "crash" not in o2 and "driver_error" not in o2 and differential_eval(ctx, [(two, o2, 1)], tag="dif2"):
+                    small = (two, o2, 1)
+                    break
+        if small:
+            # the control of the shrunk case (its own step-1 writes alone)
+            cc = control_of(small[0], 1)
+            co = run_plain(ctx, [cc])[0]
         c1, o1, i1 = small or (c, o, i)
         got, exp = o1["obs"][i1]["end"], co["obs"][0]["end"]
         diff = sorted(k for k in PIECES if got.get(k) != exp.get(k) and not (k == "pixel" and final_nd(c1)))
